@@ -27,9 +27,10 @@ type Clause struct {
 }
 
 type LoopSpec struct {
-	Invariants []*Clause
-	Modifies   []*Clause
-	Decreases  *Clause
+	ExitAsserts []*Clause
+	Invariants  []*Clause
+	Modifies    []*Clause
+	Decreases   *Clause
 }
 
 type CallAssert struct {
@@ -526,6 +527,10 @@ func (S *Specs) parseLines(lines []rawLine, ctx *PkgCtx, pkgShort string, extern
 			case "invariant":
 				if c := mkClause(l, "invariant", lab, f[2]); c != nil {
 					ls.Invariants = append(ls.Invariants, c)
+				}
+			case "exit-assert":
+				if c := mkClause(l, "exit-assert", lab, f[2]); c != nil {
+					ls.ExitAsserts = append(ls.ExitAsserts, c)
 				}
 			case "decreases":
 				ls.Decreases = mkClause(l, "decreases", lab, f[2])
